@@ -1,5 +1,6 @@
 import QVerif.Lemmas.OptTerms
 import QVerif.Lemmas.EnergyLower
+import QVerif.Lemmas.EncoderPoly
 
 /-!
 # C01 — JSSP Hamiltonian: feasible schedules lie strictly below every infeasible state
@@ -383,6 +384,16 @@ theorem feasible_below_infeasible_boundary (pen : Penalties) (hr : Regime pen) (
         Rat.mul_le_mul_of_nonneg_right c hPo0
       have m2 := Rat.mul_nonneg cp hPp0
       grind
+
+/-- **The energy the theorems speak about is the eigenvalue of the operator the encoder builds.**  The operator — the sum of
+products of `I`/`Z` strings assembled by `_prepare_hamiltonian`, `value_term`, `viability_term` and the constraint terms
+(`Model/EncoderPoly.lean`), also in its canonical form (equal strings merged, `Z·Z = I`, zero terms dropped: what the
+correspondence compares with the implementation's coefficient table at any qubit count) — has, on every computational basis
+state, exactly the value `energyOf` used in `energy_decoded`, `energy_lower` and `feasible_below_infeasible`. -/
+theorem hamiltonian_operator_eigenvalue (pen : Penalties) (inst : EInst) (vars : List (List Var)) (limit : Nat) (bits : Bits) :
+    evalPoly bits (energyPolyOf pen inst vars limit) = energyOf pen inst vars limit bits ∧
+    evalPoly bits (normalize (energyPolyOf pen inst vars limit)) = energyOf pen inst vars limit bits :=
+  ⟨eval_energyPolyOf pen inst vars limit bits, by rw [eval_normalize, eval_energyPolyOf]⟩
 
 end QVerif.Encoder
 
